@@ -324,6 +324,7 @@ def compileInstr (ctx : Ctx) (s : St) : EInstr → Except Err (St × List MStmtC
     let n := ft.params.length
     if s.height < s.base + n then .error "call: stack / pops below the enclosing label (invalid module)" else
     let base := s.height - n
+    if s.stack.drop base ≠ ft.params.map vtOfW then .error "call: argument types (invalid module)" else
     let args : List Slot := (ft.params.zipIdx).map fun (t, k) => ⟨vtOfW t, base + k⟩
     match ft.results with
     | [] => .ok (s.drop n, [.call none f args], false)
@@ -337,6 +338,7 @@ def compileInstr (ctx : Ctx) (s : St) : EInstr → Except Err (St × List MStmtC
     let some idx := s.top 0 | .error "call_indirect: stack"
     if s.height < s.base + n + 1 then .error "call_indirect: stack / pops below the enclosing label (invalid module)" else
     let base := s.height - 1 - n
+    if (s.stack.drop base).take n ≠ ft.params.map vtOfW ∨ idx.ty ≠ .i32 then .error "call_indirect: argument types (invalid module)" else
     let args : List Slot := (ft.params.zipIdx).map fun (t, k) => ⟨vtOfW t, base + k⟩
     match ft.results with
     | [] => .ok (s.drop (n + 1), [.callIndirect none ty tbl idx args], false)
